@@ -563,6 +563,8 @@ def prog_misc2(e, which):
         return T('\\def\\myb#1{[#1]}\\def\\mya#1.{\\myb#1}\\mya{') + [P(), P()] + T('}.') + [P()]
     if which == 'delimited-two-groups-kept':
         return T('\\def\\myb#1{[#1]}\\def\\mya#1.{\\myb#1}\\mya{') + [P(), P()] + T('}{') + [P()] + T('}.') + [P()]
+    if which == 'expandafter-empty':            # the token expanded out of turn expands to nothing: the saved macro takes what follows
+        return T('\\def\\mya#1{[#1]}\\def\\myb{}\\expandafter\\mya\\myb ') + [P(), P()] + T('\\expandafter\\mya\\myb{') + [P(), P()] + T('}')
     if which == 'call-last-token':
         return T('\\def\\mya{') + [P()] + T('}') + [P()] + T('\\mya')
     raise AssertionError(which)
@@ -571,7 +573,7 @@ def prog_misc2(e, which):
 MISC2 = ['call-in-delimited-arg', 'macro-as-arg', 'optional-with-group', 'four-args-optional', 'newcommand-star', 'renew-optional', 'gdef-in-body', 'def-order',
          'two-token-delimiter', 'brace-around-param', 'csname-call-with-arg', 'expandafter-over-args', 'call-last-token', 'expandafter-reuse', 'expandafter-reuse2', 'renew-def', 'renew-let',
          'renew-newcommand-noargs', 'def-after-newcommand', 'let-char-redef', 'let-char-relet',
-         'delimited-group-stripped', 'delimited-two-groups-kept', 'hash-parameterless-newcommand', 'hash-parameterless-def', 'hash-parameterless-deep', 'hash-parameterless-literal']
+         'expandafter-empty', 'delimited-group-stripped', 'delimited-two-groups-kept', 'hash-parameterless-newcommand', 'hash-parameterless-def', 'hash-parameterless-deep', 'hash-parameterless-literal']
 
 
 def h_misc2(e, which):
